@@ -7,6 +7,21 @@ import warnings
 
 sys.path.insert(0, os.environ["LOKY_REPO"])
 
+if __name__ == "__mp_main__":
+    # This script is re-imported as __mp_main__ in children started with 'loky_init_main': a tracked operation at module
+    # level (like a global lock or a registered temporary folder in a user's script) must already reach the shared tracker.
+    try:
+        from loky.backend import resource_tracker as _rt
+
+        _f = os.path.join(os.getcwd(), "import_%d.txt" % os.getpid())
+        open(_f, "w").close()
+        _rt.register(_f, "file")
+        with open(os.path.join(os.getcwd(), "import_%d.json" % os.getpid()), "w") as _fh:
+            json.dump({"pid": os.getpid(), "tracker_pid_at_import": _rt._resource_tracker._pid}, _fh)
+    except BaseException as _e:  # pragma: no cover
+        with open(os.path.join(os.getcwd(), "import_%d.json" % os.getpid()), "w") as _fh:
+            json.dump({"pid": os.getpid(), "error": repr(_e)}, _fh)
+
 
 def main():
     prog = json.load(open(sys.argv[1]))
@@ -46,17 +61,28 @@ def main():
                     break
                 time.sleep(0.002)
             time.sleep(prog["gap"])
+            child = None
             with warnings.catch_warnings(record=True) as wl:
                 warnings.simplefilter("always")
                 try:
-                    if prog["op"] == "register":
+                    if prog["op"] == "spawn":
+                        from loky.backend import get_context
+                        from props.c12_task import heal_child
+                        rep = os.path.join(outdir, f"child{i}.json")
+                        p = get_context("loky").Process(target=heal_child, args=(rep, f))
+                        p.start()
+                        p.join(60)
+                        child = json.load(open(rep)) if os.path.exists(rep) else {"error": "no report", "exitcode": p.exitcode}
+                        rt.register(f + ".root", "file")       # the root's own next tracked operation
+                    elif prog["op"] == "register":
                         rt.register(f, "file")
                     else:
                         rt.maybe_unlink(f, "file") if False else rt.unregister(f, "file")
                     err = None
                 except BaseException as e:
                     err = f"{type(e).__name__}: {e}"
-            evs.append({"err": err, "new_pid": rt._resource_tracker._pid, "warned": any("relaunching" in str(x.message) for x in wl)})
+            evs.append({"err": err, "new_pid": rt._resource_tracker._pid, "warned": any("relaunching" in str(x.message) for x in wl),
+                        "child": child})
             pids.append(rt._resource_tracker._pid)
         # the last tracker works: a registered file is removed on maybe_unlink
         g = os.path.join(outdir, "final.txt")
